@@ -243,6 +243,13 @@ struct ThObj : ObjBase<ThObj, th_t> {
 
 // factory: kind, two parameters, arena
 inline Obj* make(int kind, long p1, long p2, int arena) {
+  // parameters that do not fit the constructor argument types are refused here (no silent truncation);
+  // frequent-items tables are limited to 2^12 slots in this harness
+  if (p1 < 0 || p2 < 0 || p1 > 65535 || p2 > 255 || (kind != 0 && kind != 3 && kind != 4 && kind != 5 && kind != 6 && p1 > 255))
+    throw std::invalid_argument("parameter out of range");
+  if (kind == 2 && (p1 > 12 || p2 > 12)) throw std::invalid_argument("parameter out of range");
+  if ((kind == 1 || kind == 9 || kind == 4) && p2 > 3) throw std::invalid_argument("parameter out of range");
+  if (kind == 7 && p2 > 2) throw std::invalid_argument("parameter out of range");
   switch (kind) {
   case 0: return new KllObj((uint16_t)p1, std::less<Item>(), talloc<Item>(arena));
   case 1: {
